@@ -443,7 +443,14 @@ def run_sequence(ctx, steps, seqid, strace=False, extra_fds=(), present=()):
     out = {"line": line, "findings": [], "bad": [], "accepted": [], "nontrivial": [], "variant": None}
     try:
         setup_work(work, present)
-        rc, recs = run_real(ctx.cicada, line, work, strace=strace, extra_fds=extra_fds)
+        budget = 30 + 4 * len(full)
+        rc, recs = run_real(ctx.cicada, line, work, timeout=budget, strace=strace, extra_fds=extra_fds)
+        if rc == "TIMEOUT":
+            # the machine may just be loaded: once more, alone, with a generous budget, before calling it a hang
+            shutil.rmtree(work, ignore_errors=True)
+            setup_work(work, present)
+            rc, recs = run_real(ctx.cicada, line, work, timeout=6 * budget, strace=strace, extra_fds=extra_fds)
+            out["retried_after_timeout"] = True
         out["rc"] = rc
         died = rc in (141, -13)
         out_txt = open(os.path.join(work, "out.txt"), "rb").read()
